@@ -255,9 +255,13 @@ package client
 //@   ensures digest: [C18] result1 == nil ==> result0 != nil && *result0 == accDigest(m, h)
 
 //@ func (*RemoteClient).handleMessage
-//@   serves C17 C18
+//@   serves C17 C18 C16
 //@   opt nomonitor = 1
 //@   opt partial = 1
+//@   opt track = addRequestResponse
+//@   ensures responses_reach_requests: [C16] result == nil && old(bval(aval(c.accepted))) && (typeis(m.Payload, *Headers) || typeis(m.Payload, *Header) || typeis(m.Payload, *FeeQuotes)
+//@        || typeis(m.Payload, *BaseTx) || typeis(m.Payload, *Accept) || typeis(m.Payload, *Reject)) ==> ncalls(addRequestResponse) == 1
+//@   assert hands_over_the_message at call addRequestResponse : [C16] arg1 != nil && arg1.message == m
 //@   requires c != nil && m != nil && typeis(aval(c.nextMessageID), uint64) && typeis(aval(c.accepted), bool)
 //@   ensures tx_match: [C17] old(bval(aval(c.accepted))) && typeis(m.Payload, *Tx) && as(m.Payload, *Tx).ID == old(nextID(c)) ==> nextID(c) == uint64(old(nextID(c)) + 1)
 //@   ensures tx_skip: [C17] typeis(m.Payload, *Tx) && as(m.Payload, *Tx).ID != old(nextID(c)) ==> nextID(c) == old(nextID(c))
